@@ -101,7 +101,7 @@ Definition touches (k : key) (o : op) : bool :=
 
 Lemma run_op_untouched : forall e o s k, touches k o = false -> get k (run_op e o s) = get k s.
 Proof.
-  intros e o s k H; destruct o as [k1 [|n|k']|k1|d|n kd|n|d|k1 c]; cbn in *; auto.
+  intros e o s k H; destruct o as [k1 [|n|k']|k1|d|n kd|n|d|k1 c|fr h]; cbn in *; auto.
   - apply get_set_neq. apply key_eqb_neq; exact H.
   - apply get_set_neq. apply key_eqb_neq; exact H.
   - destruct (get k' s); auto. apply get_set_neq. apply key_eqb_neq; exact H.
@@ -182,7 +182,7 @@ Proof.
     { induction os as [|o r IH]; intros a Ha Hn; cbn; auto. cbn in Hn. apply andb_true_iff in Hn. destruct Hn as [A B].
       assert (T : touches k_chdir o = false) by (destruct (touches k_chdir o); [discriminate|reflexivity]).
       rewrite IH; auto.
-      - destruct o as [k1 [|n|k']|k1|d|n kd|n|d|k1 c]; cbn; auto.
+      - destruct o as [k1 [|n|k']|k1|d|n kd|n|d|k1 c|fr h]; cbn; auto.
         + destruct (get k' a); reflexivity.
         + unfold do_chdir. rewrite Ha. reflexivity.
         + apply mutate_fields.
@@ -269,7 +269,7 @@ Example setup_py_partial_applies :
   (false = true -> get k_cythonize ex_state <> None) /\
   forallb (fun m => is_plain (snd m)) (mods ex_state) = true /\
   (forall n, In n fake_names -> mmem n (mods ex_state) = false) /\
-  mod_ops_ok (mods ex_state) (fst ex_program) /\ callable e sp = true.
+  mod_ops_ok (mods ex_state) (fst ex_program) /\ no_meta_ins (fst ex_program) /\ callable e sp = true.
 Proof.
   cbv zeta. split; [discriminate|].
   split; [apply unaliased_b_sound; vm_compute; reflexivity|].
@@ -282,6 +282,8 @@ Proof.
     rewrite forallb_forall in B. intros n Hn. specialize (B n Hn). destruct (mmem n (mods ex_state)); [discriminate|reflexivity]. }
   split.
   { intros o H. cbn in H. repeat (destruct H as [<-|H]; [cbn; auto|]). destruct H. }
+  split.
+  { intros f h H. cbn in H. repeat (destruct H as [H|H]; [discriminate|]). destruct H. }
   vm_compute. reflexivity.
 Qed.
 
